@@ -239,6 +239,14 @@ func (t *Transaction) rowsFromTransactionCacheAndDatabase(table string, where []
 			rows[rowUUID] = txnRow
 			// delete txnRows so that only inserted rows remain in txnRows
 			delete(txnRows, rowUUID)
+		} else if _, deleted := t.DeletedRows[rowUUID]; deleted {
+			// deleted earlier in this transaction: the database contents of
+			// the row are not visible and must not be cached again
+			delete(rows, rowUUID)
+		} else if t.Cache.Table(table).HasRow(rowUUID) {
+			// changed earlier in this transaction so that it no longer
+			// matches: the database contents of the row are not visible
+			delete(rows, rowUUID)
 		} else {
 			// warm the transaction cache with the current contents of the row
 			if err := t.Cache.Table(table).Create(rowUUID, row, false); err != nil {
